@@ -88,6 +88,11 @@ func isUsed(field string, node Node) bool {
 						used = true
 					}
 				}
+			case NodeTypeUnnest:
+				// The unnested list decides how many rows come out, even when nobody reads the column.
+				if node.Unnest.Field == field {
+					used = true
+				}
 			default:
 			}
 
